@@ -106,7 +106,8 @@ func (w *worker) expired() bool {
 // explore runs one scenario under the explorer (or replays it) and records the result.
 func (w *worker) explore(name string, params interface{}, opts vrt.Options, body func()) *vrt.Result {
 	if w.replay != nil {
-		if w.replay.Scenario != name {
+		// a recorded schedule is replayed whatever bound the current tier gives the scenario
+		if stripBound(w.replay.Scenario) != stripBound(name) {
 			return nil
 		}
 		w.doReplay(name, opts, body)
@@ -219,3 +220,10 @@ func envInt(name string, def int) int {
 
 // nowNs is the real wall clock (internal deadlines only, never an oracle).
 func nowNs() int64 { return time.Now().UnixNano() }
+
+func stripBound(n string) string {
+	if i := strings.LastIndex(n, "-bound"); i >= 0 {
+		return n[:i]
+	}
+	return n
+}
